@@ -324,6 +324,11 @@ impl Group for EnfGroup {
             }
             // the store refuses the writes of one request: whatever is acknowledged counts, then restart from the store
             v.push(f("setup|signcp 0 1000 0 1 2|failw signcp 1 1004 0 1 2|restart|signcp 1 1005 1 1 2|signcp 1 1004 0 1 2"));
+            // composite store: the main or the backup side refuses the writes of one request
+            v.push(f("store backup|setup|validate 0 0 1 1 2|activate|validate 1 1 1 1 2|failw signholder 0|restart|revoke 1 1|getsecret 0"));
+            v.push(f("store backup|setup|validate 0 0 1 1 2|activate|validate 1 1 1 1 2|failb hsignholder 6 0|restart|hrevoke 6 0 1|getsecret 0"));
+            v.push(f("store backup|setup|signcp 0 1000 0 1 2|failw signcp 1 1004 0 1 2|restart|signcp 1 1005 1 1 2|failb signcp 2 1008 0 1 2|restart|signcp 2 1009 0 1 2"));
+            v.push(f("store backup|setup|validate 0 0 1 1 2|activate|validate 1 1 1 1 2|revoke 1 1|restart|validate 2 2 1 1 1|failw revoke 2 1|restart|signholder 1"));
             v.push(f("setup|signcp 0 1000 0 1 2|failw hsigncp 1 1004 24 1 2|restart|hsigncp 1 1004 28 1 2"));
             v.push(f("setup|validate 0 0 1 1 2|activate|validate 1 1 1 1 2|failw signholder 0|restart|revoke 1 1|getsecret 0"));
             v.push(f("setup|validate 0 0 1 1 2|activate|validate 1 1 1 1 2|failw hsigncommit 6 0|restart|hrevoke 6 0 1"));
@@ -398,10 +403,14 @@ impl Group for EnfGroup {
     }
     fn gen_case(&self, rng: &mut Rng, tier: Tier) -> Vec<String> {
         let demoted: Option<String> = if self.free && rng.chance(5, 6) { Some(rng.pick(&DEMOTABLE_TAGS).to_string()) } else { None };
-        let mut w = World::new_cfg(demoted.clone());
+        let backup = self.free && rng.chance(1, 3);
+        let mut w = World::new_cfg2(demoted.clone(), backup);
         let mut ops = Vec::new();
         if let Some(t) = &demoted {
             ops.push(format!("filter {}", t));
+        }
+        if backup {
+            ops.push("store backup".into());
         }
         let len = rng.range(4, if tier == Tier::Quick { 14 } else { 32 }) as usize;
         // a few requests against the stub in some cases, then setup
@@ -471,7 +480,7 @@ impl Group for EnfGroup {
                 // free mode: the store refuses every write during one state-changing request
                 let k = op.split(' ').next().unwrap_or("");
                 if self.free && rng.chance(1, 8) && matches!(k, "validate" | "hvalidate" | "hvalidate1" | "revoke" | "hrevoke" | "activate" | "signholder" | "hsignholder" | "hsigncommit" | "signrecovery" | "signredundant" | "mutualclose" | "hmutualclose" | "signcp" | "hsigncp" | "revokecp" | "hrevokecp") {
-                    format!("failw {}", op)
+                    format!("{} {}", if backup && rng.chance(1, 3) { "failb" } else { "failw" }, op)
                 } else {
                     op
                 }
@@ -482,7 +491,7 @@ impl Group for EnfGroup {
             ops.push(op);
             // crash point: a restart directly after a request that changed the state (a dropped or misplaced
             // persist shows exactly here)
-            let acked_failw = ops.last().map(|o| o.starts_with("failw ")).unwrap_or(false) && line.starts_with("failw ok");
+            let acked_failw = ops.last().map(|o| o.starts_with("failw ") || o.starts_with("failb ")).unwrap_or(false) && (line.starts_with("failw ok") || line.starts_with("failb ok"));
             if (changed && !w.dead && rng.chance(1, 6)) || (acked_failw && rng.chance(2, 3)) {
                 w.apply("restart");
                 ops.push("restart".into());
@@ -493,7 +502,8 @@ impl Group for EnfGroup {
     fn exec_case(&self, ops: &[String]) -> CaseOut {
         let mut co = CaseOut::default();
         let demoted = ops.first().and_then(|o| o.strip_prefix("filter ")).map(|t| t.to_string());
-        let mut w = World::new_cfg(demoted);
+        let backup = ops.iter().take(2).any(|o| o == "store backup");
+        let mut w = World::new_cfg2(demoted, backup);
         let (mut accepted, mut refused) = (false, false);
         for op in ops {
             let before = w.digest();
